@@ -1,4 +1,4 @@
-//! Concurrent-workload harness (C01, C02, C03, C10, C11).
+//! Concurrent-workload harness (C01, C02, C03, C10, C11; registry histories on threads for C06, C07).
 //!
 //!   conc <property> --engine e1|e2|native --seed S [--first N --cases N] [--secs T]
 //!        [--thorough] [--verbose] --out <part.json>
@@ -7,6 +7,7 @@ mod sched;
 mod wl_counter;
 mod wl_gauge;
 mod wl_hist;
+mod wl_registry;
 mod wl_vec;
 #[cfg(prometheus_verif)]
 mod hb;
@@ -54,6 +55,7 @@ fn main() {
         "C11" => wl_gauge::run(&job, &mut part),
         "C02" | "C03" => wl_hist::run(&job, &mut part),
         "C10" => wl_vec::run(&job, &mut part),
+        "C06" | "C07" => wl_registry::run(&job, &mut part),
         other => {
             eprintln!("unknown property {}", other);
             std::process::exit(2);
